@@ -594,6 +594,20 @@ def http_feed_data(u: U):
                 f"only HTTP protocol errors (-> 400 / client error) may escape feed_data, got {type(out.exc).__name__}: "
                 f"{str(out.exc)[:60]}",
                 known=[("F10b", isinstance(out.exc, ValueError))])
+        # a partial line refused as too long: inside the loop the tail is empty (invariant), so a non-empty tail at a
+        # LineTooLong exit is the partial line that was just refused
+        t = p._tail
+        if isinstance(out.exc, E.LineTooLong) and isinstance(t, SBytes) and u.branch(blen(t) > 0, "partial_line_refused"):
+            first = p._lines.sym_len() == 0
+            limit = Ite(first, p.max_line_size, p.max_field_size)
+            last = t.byte_at(blen(t) - 1)
+            content = blen(t) - Ite(last == 13, 1, 0)
+            u.check("C03.limit.partial_line_not_early", content > limit,
+                    "a partial line is refused only if no continuation can make it acceptable: a trailing CR may be the "
+                    "first half of the terminator and does not count towards the line - otherwise a line of exactly the "
+                    "limit is accepted in one read and refused when the read boundary falls between its CR and LF",
+                    known=[("F3e", And(last == 13, blen(t) == limit + 1))],
+                    witness={"tail_len": blen(t), "limit": limit, "last_byte": last})
         return
     L = u.last_locals.get(FN_HP, {})
     messages, upgraded, rest = out.value
@@ -617,7 +631,10 @@ def http_feed_data(u: U):
                         "that is present is found whatever the history of the parser (no stale scan offsets)")
                 first = p._lines.sym_len() == 0
                 limit = Ite(first, p.max_line_size, p.max_field_size)
-                u.check("C03.limit.partial_line", blen(tail) <= limit,
+                # the length of a line excludes its terminator (that is what the complete-line path measures), so a
+                # trailing CR - possibly the first half of CRLF - is not counted; the retained bytes are <= limit + 1
+                kept_last = tail.byte_at(blen(tail) - 1)
+                u.check("C03.limit.partial_line", blen(tail) - Ite(kept_last == 13, 1, 0) <= limit,
                         "a partial line is kept only if it is within the limit of the line it belongs to "
                         "(start line: max_line_size, field line: max_field_size): a cut can only move the moment of rejection",
                         known=[("F3b", And(Not(first), p.max_field_size < p.max_line_size))],
